@@ -17,7 +17,8 @@ LEVEL_TEXT = (
     "dimension for the block-diagonal model). (b) MLE covariances equal the uncalibrated solver's covariances times scale^2 on the same "
     "grid. (c) Multiplying the base scale by c leaves means, the recorded accepted step sequence and calibrated covariances unchanged, "
     "divides the estimated scale by c and multiplies uncalibrated standard deviations by c (zero initial covariance and no damping, where "
-    "the relation is mathematically exact)."
+    "the relation is mathematically exact). Extra structures use solver(..., constraint_init=...) with inexact / diffuse initial states, "
+    "where the initial-constraint residual is the first datum of the estimator (parts (a), (b) only)."
 )
 LEVEL_NOTE = "Trusted: mpmath reference; recording proxies for the step sequence. Cases whose acceptance decision is borderline (|error power - 1| < 1e-6) are inconclusive for the step-sequence comparison."
 RULE = (
